@@ -749,6 +749,64 @@ var scenarios = []scenario{
 			})
 		}
 	}},
+	{"twologs", func(rd *runner) {
+		// Several mirrored logs in ONE witness instance, each with resumed uploads that start at the
+		// same 256-aligned points and complete full tiles there, so that their overlays read base
+		// tiles with the SAME coordinates (tile/1/000.p/2, .p/3, .p/4): per-log state must not
+		// interact. Only example.com/log has event lines (the model knows one origin: it must still
+		// reproduce them while the other logs are active); every log is judged by its own monitors.
+		sideCount = 1100
+		defer func() { sideCount = 300 }()
+		selfResumed := func(h *hist, size int64) {
+			h.pending(size)
+			h.uploadBody(0, size, "-", h.log.honestBody(0, size, 2)) // interrupted after [0,512): 202
+			h.upload(512, size, "-")
+		}
+		sideResumed := func(h *hist, k int, size int64) {
+			h.sidePending(k, size)
+			h.sideUpload(k, 0, size, 2)
+			h.sideUpload(k, 512, size, 0)
+		}
+		rd.run("a", 1100, func(h *hist) { // another log first, then the log of the event lines
+			sideResumed(h, 0, 768)
+			selfResumed(h, 768)
+			h.pending(1100)
+			h.upload(768, 1100, "-")
+			h.sidePending(0, 1100)
+			h.sideUpload(0, 768, 1100, 0)
+		})
+		rd.run("a", 1100, func(h *hist) { // the log of the event lines first, then two others
+			selfResumed(h, 768)
+			sideResumed(h, 0, 768)
+			sideResumed(h, 1, 768)
+			h.sidePending(1, 1100)
+			h.sideUpload(1, 768, 1100, 0)
+			h.pending(1100)
+			h.upload(768, 1100, "-")
+		})
+		rd.run("a", 1100, func(h *hist) { // interleaved, different sizes, a restart and a gc run in between
+			h.pending(900)
+			h.sidePending(0, 800)
+			h.sidePending(1, 1030)
+			a, _ := h.begin(0, 900, "-")
+			h.pkg(a)
+			h.sideUpload(0, 0, 800, 1)
+			h.pkg(a)
+			h.sideUpload(1, 0, 1030, 3)
+			h.sideUpload(0, 256, 800, 0)
+			h.pkgs(a)
+			h.commit(a)
+			h.sideUpload(1, 768, 1030, 0)
+			h.evGC()
+			h.evRestart()
+			h.pending(1100)
+			h.sidePending(0, 1100)
+			h.sidePending(1, 1100)
+			h.upload(900, 1100, "-")
+			h.sideUpload(0, 800, 1100, 0)
+			h.sideUpload(1, 1030, 1100, 0)
+		})
+	}},
 	{"retry", func(rd *runner) { rd.enumerate("p", 1000, "retry", baseScript) }},
 	{"retry2", func(rd *runner) { rd.enumerate("p", 1000, "retryalt", raceScript) }},
 	{"retryolder", func(rd *runner) { rd.enumerate("v", 1100, "retryall", olderScript) }},
